@@ -101,6 +101,8 @@ def check(ctx):
     lpn = rst.get('self.lastPacket')
     # `(flags & 0x40) != 0` in any spelling: one fact "<masked> == 0" that is false when the flag is set
     from ..cfg import implied as _implied
+    if isinstance(lpn, ast.Call) and norm(lpn.func) == 'bool' and len(lpn.args) == 1 and not lpn.keywords:        # bool(x) is x != 0
+        lpn = ast.copy_location(ast.Compare(left=lpn.args[0], ops=[ast.NotEq()], comparators=[ast.Constant(value=0)]), lpn)
     fs = _implied(lpn, True) if lpn is not None else []
     ok = len(fs) == 1 and fs[0].op == '==' and fs[0].pol is False and 0 in (fold_in(sw, fs[0].left), fold_in(sw, fs[0].right))
     if ok:
@@ -167,7 +169,7 @@ def check(ctx):
         arg = norm(rc[0].args[0]).replace(' ', '') if len(rc) == 1 and rc[0].args else None
         if arg == '%s-len(data)' % sz:
             # scheme A: the missing byte count is recomputed from the buffer
-            ok_loop = _ct(ast.parse('len(data) < %s' % sz, mode='eval').body) in conj
+            ok_loop = _ct(ast.parse('len(data) < %s' % sz, mode='eval').body) in conj or _ct(ast.parse('%s - len(data) > 0' % sz, mode='eval').body) in conj
             ok_req = True
             ok_acc = len(ex) == 1 and ex[0].args[0] is rc[0] and rets == ['data'] and len(body) == 1
         elif len(rc) == 1 and isinstance(rc[0].args[0], ast.Name):
